@@ -176,6 +176,9 @@ BAD_EXPR = {
     "positional-var-after-named": "FOO(x: 1, $v)",
     "positional-after-named-term": "-term(x: 1, msg)",
     "dup-named": "FOO(x: 1, x: 2)",
+    "dup-named-unsorted": "FOO(b: 1, a: 2, b: 3)",
+    "dup-named-far": "FOO(style: 1, minimumFractionDigits: 2, a: 3, style: 4)",
+    "dup-named-term": "-term(z: 1, k: \"v\", a: 2, z: 3)",
     "lowercase-callee": "foo()",
     "lowercase-callee2": "Foo(1)",
     "bad-escape": "\"\\x\"",
